@@ -166,6 +166,49 @@ def generate():
                                      "ORDER" in node.value or "DELETE" in node.value or
                                      "UPDATE" in node.value):
                         add("sql", node, a, b, src.replace(x, y, 1), "%s->%s" % (x, y))
+            if isinstance(node, ast.Call) and getattr(node.func, "attr", "") == "execute" and \
+                    len(node.args) == 2 and isinstance(node.args[0], ast.Constant) and \
+                    isinstance(node.args[0].value, str) and isinstance(node.args[1], ast.Tuple):
+                sql = node.args[0].value
+                elts = node.args[1].elts
+                a0 = seg(lines, node.args[0])[0]
+                b1 = seg(lines, node.args[1])[1]
+
+                def tup(keep):
+                    parts = [text[seg(lines, e)[0]:seg(lines, e)[1]] for i, e in
+                             enumerate(elts) if i in keep]
+                    return "(" + ", ".join(parts) + ("," if len(parts) == 1 else "") + ")"
+                import re as _re
+                wpos = sql.upper().find(" WHERE ")
+                if wpos >= 0:
+                    head, where = sql[:wpos], sql[wpos + 7:]
+                    tail = ""
+                    mt = _re.search(r"\s+(ORDER BY|LIMIT|GROUP BY)\b", where, _re.I)
+                    if mt:
+                        where, tail = where[:mt.start()], where[mt.start():]
+                    conj = _re.split(r"\s+AND\s+", where)
+                    nbefore = head.count("?")
+                    if len(conj) >= 2 and all(c.count("?") <= 1 for c in conj):
+                        for k in range(len(conj)):
+                            rest = conj[:k] + conj[k + 1:]
+                            qidx = nbefore + sum(c.count("?") for c in conj[:k])
+                            keep = [i for i in range(len(elts))
+                                    if not (conj[k].count("?") == 1 and i == qidx)]
+                            new_sql = head + " WHERE " + " AND ".join(rest) + tail
+                            add("sqldrop", node, a0, b1, repr(new_sql) + ", " + tup(keep),
+                                "drop conjunct %s" % conj[k].strip())
+                    for k in range(len(conj)):
+                        if conj[k].rstrip().endswith("=?") and "!" not in conj[k]:
+                            c2 = conj[k].rstrip()[:-2] + "!=?"
+                            new_sql = head + " WHERE " + " AND ".join(
+                                conj[:k] + [c2] + conj[k + 1:]) + tail
+                            add("sqlneq", node, a0, b1,
+                                repr(new_sql) + ", " + tup(range(len(elts))),
+                                "negate conjunct %s" % conj[k].strip())
+                    if tail:
+                        add("sqltail", node, a0, b1,
+                            repr(head + " WHERE " + where) + ", " + tup(range(len(elts))),
+                            "drop %s" % tail.strip())
             if isinstance(node, ast.Return) and node.value is not None and \
                     not isinstance(node.value, ast.Constant):
                 a, b = seg(lines, node.value)
